@@ -230,6 +230,23 @@ def explore(ctx, scale=1.0):
         except Exception as ex:
             ctx.violation(sig, f"an empty {sig.split(':')[1].upper()} block raises {type(ex).__name__}", {"text": text})
     # ---------------- create(type, version) ----------------
+    from props import C09
+    creqs, ckeep = [], []
+    for t in gen.BLOCK_TYPES:
+        for v in VERSIONS + [4.0, 5.2, 5.4, 5.6, 6.2, 6.4, 7.0, 7.2, 7.601, 8.4]:
+            try:
+                real = {"ok": core.enc(dict(mappyfile.create(t, v)))}
+            except Exception as ex:
+                real = {"err": type(ex).__name__}
+            creqs.append({"op": "create", "fuel": 40, "type": t, "ver": C09.wire_ver(v)}); ckeep.append((t, v, real))
+    try:
+        for (t, v, real), ans in zip(ckeep, core.lean_call(creqs)):
+            if ans == real:
+                ctx.corr_ok("create")
+            else:
+                ctx.corr_diff("create", {"type": t, "version": v}, json.dumps(ans)[:400], json.dumps(real)[:400])
+    except Exception as ex:
+        ctx.broken.append({"kind": "driver", "detail": str(ex)[:300]})
     for t in gen.BLOCK_TYPES:
         for v in VERSIONS:
             ctx.case(("create", t, v), True); ctx.count("create")
@@ -250,6 +267,6 @@ def explore(ctx, scale=1.0):
 def main(ctx):
     if ctx.replay:
         print(open(ctx.replay).read()[:4000]); return
-    core.proof_leg(ctx, ["Mappy.Props.C19"], need_driver=False)
+    core.proof_leg(ctx, ["Mappy.Props.C19", "Mappy.Props.C19Create", "Mappy.Props.C19CreateAll"])
     explore(ctx)
     core.finish(ctx, LEVEL_NOTE, RULE, search=lambda c: explore(c, scale=1.0))
